@@ -166,6 +166,13 @@ func (t *tx) txIdentity() *txState { return &t.state }
 // run after the commit attempt completes, with committed=true on
 // success and committed=false otherwise.
 func (t *tx) Commit(ctx context.Context, opts ...any) error {
+	// Two transactions that write the same entry may commit at the same time. Without
+	// the lock the one that reaches the KV last can promote its index delta first, and
+	// the indexes then describe a value the table no longer holds.
+	if t.commitMu != nil {
+		t.commitMu.Lock()
+		defer t.commitMu.Unlock()
+	}
 	err := t.Tx.Commit(ctx, opts...)
 	t.state.runCleanups(err == nil)
 	return err
